@@ -62,6 +62,11 @@ ClientCases == [kind : {"client"}, cls : {"SoapClient", "SoapClientAsync"}, ctx 
 \* sink with its client context, never in plaintext (the delivery may fail - that is the subscriber's problem).
 SinkCases == [kind : {"sink"}, mgr : {"sync", "async", "sync_ref", "async_ref"}, notify : {"https", "http"},
               endto : {"none", "https", "http"}]
+\* The provider names endpoints under another network location than the one the consumer connected to first (the
+\* x_addr carries the alternative host name, hosted services and subscription managers the numeric address) and that
+\* second location does not answer TLS (a downgrade on that path only).  An enforcing consumer contacts it under its
+\* client context or not at all.
+SecondCases == [kind : {"second"}, mgr : {"sync", "async", "sync_ref", "async_ref"}, psrv : {"shared", "own"}]
 \* how a bound provider may contact a sink: [tls, ctx]
 SinkContactOK(contact) == contact.tls /\ contact.ctx
 
@@ -141,7 +146,7 @@ IsCfg == cfg.kind = "cfg"
 \* the configuration in the environment of the moment
 C == IF IsCfg THEN [cfg EXCEPT !.peer = env] ELSE cfg
 
-Init == /\ (cfg \in Configs \/ cfg \in CertCases \/ cfg \in ClientCases \/ cfg \in SinkCases)
+Init == /\ (cfg \in Configs \/ cfg \in CertCases \/ cfg \in ClientCases \/ cfg \in SinkCases \/ cfg \in SecondCases)
         /\ pi = 0 /\ mode = "init" /\ sub = "none"
         /\ env = (IF IsCfg THEN cfg.peer ELSE "yes") /\ round = 0
 
